@@ -143,6 +143,7 @@ Proof. exact (@gen_eq_eq). Qed.
 
 Theorem C13_generated_union_agrees :
     forall (F : Type) (K : Ops F) (s t : support F),
+      SInv s -> SInv t ->
       gres_interp s t
         (SupportGen.G.calcUnion (grid_size (sgrid s)) (sstart s) (sstop s) (sstart t) (sstop t) (has_same_grid s t)) =
       calc_union s t.
@@ -150,6 +151,7 @@ Proof. exact (@gen_calcUnion_eq). Qed.
 
 Theorem C13_generated_intersection_agrees :
     forall (F : Type) (K : Ops F) (s t : support F),
+      SInv s -> SInv t ->
       gres_interp s t
         (SupportGen.G.calcIntersection (grid_size (sgrid s)) (sstart s) (sstop s) (sstart t) (sstop t) (has_same_grid s t)) =
       calc_inter s t.
